@@ -381,8 +381,13 @@ def escape_signature(exc):
 
 def where_raised(exc):
     tb = traceback.extract_tb(exc.__traceback__)
+    import re
+
     for fr in reversed(tb):
         if "/scenic/" in fr.filename or "/pegen/" in fr.filename:
+            # generated helper rules are renumbered by any grammar edit: name the enclosing rule
+            if re.fullmatch(r"_(tmp|loop\d|gather)_\d+|memoize_wrapper|memoize_left_rec_wrapper|<lambda>", fr.name):
+                continue
             return fr.name
     return tb[-1].name if tb else "?"
 
